@@ -156,12 +156,11 @@ func propC03(c *Ctx) {
 	}
 	isReorg, _ := reorgEdgesOf(loads[0], errReorg)
 	c.Check("R3.2", "Converge/tests-ErrReorg", loads[0].Pos(), len(isReorg) > 0, "load's reorg signal is tested (errors.Is(err, ErrReorg), or load's boolean result)")
-	localNum := extractOf(lats[0], 0)
 	nd := 0
 	for _, d := range dels {
 		nd++
 		c.Check("R3.2", fmt.Sprintf("Converge/Delete#%d/only-on-reorg", nd), d.Pos(), guardedByEdges(conv, d, isReorg), "Delete is reached only on the ErrReorg edge")
-		c.Check("R3.2", fmt.Sprintf("Converge/Delete#%d/from-recorded-position", nd), d.Pos(), localNum != nil && stripNum(d.Call.Args[2]) == localNum,
+		c.Check("R3.2", fmt.Sprintf("Converge/Delete#%d/from-recorded-position", nd), d.Pos(), m.isLatNum(d.Call.Args[2]),
 			"Delete's block number is the recorded position (result #0 of latest), so the divergent block itself is removed")
 		ri, _ := m.beginIndex(d.Call.Args[1])
 		li, _ := m.beginIndex(lats[0].Call.Args[2])
